@@ -916,6 +916,10 @@ void Walker::judgePlans(Inst& in, const std::vector<std::vector<PTask>>& before,
 		// reported on behalf of another state (succeed(id)/fail(id) from a different callback): attribution is F13 territory
 		if (i > 0 && x.tr[i - 1].kind == E_ACT_FAIL && x.tr[i - 1].state != x.tr[i - 1].a) continue;
 		const int r = owner(e.state); if (r < 0 || !wasActive[r]) continue;
+		// the same state also reported success in this step (e.g. an overridden planSucceeded that fails and then forwards to the default): which result
+		// wins is not stated
+		{ bool both = in.markS0[e.state]; for (int k = 0; k < firstRound && !both; ++k) { const Ev& q = x.tr[k]; if ((q.kind == E_ACT_SUCCEED && q.a == e.state) || (q.kind == E_LOG_TASK && q.b == 0 && q.state == e.state)) both = true; }
+		  if (both) { st.cls("plan_failure_evidence_skipped_both_results"); continue; } }
 		if (node(e.state).parent != r) continue; // only direct sub-states: the result of a nested region is what its head reports (its own mark wins over its sub-states')
 		for (auto& q : issued) if (q.head == r && q.at > i) { std::snprintf(buf, sizeof buf, "region %d executed a plan task (%s->%d) in a step in which its sub-state %d reported failure (%s, step %u)", r, TTN[q.type % 7], q.dest, e.state, what, S.stepNo); S.violation("C06", buf); break; }
 		for (auto& sc : statuses) if (sc.head == r && sc.success && sc.at > i) { std::snprintf(buf, sizeof buf, "region %d received planSucceeded in a step in which its sub-state %d reported failure (%s, step %u)", r, e.state, what, S.stepNo); S.violation("C06", buf); break; }
